@@ -93,7 +93,9 @@ pub fn judge(ctx: &mut Ctx, c: &Case) {
   let mut rng = Rng::new(c.gu("s"), 11);
   let thr = thresholds();
   ctx.eval();
+  precall(c);
   let res = catch(|| if dd == 0 { nested::cone_coverage_approx(depth, lon, lat, r) } else { nested::cone_coverage_approx_custom(depth, dd, lon, lat, r) });
+  postcall();
   let b = match res { Ok(b) => b, Err(p) => { let loc = panic_loc(&p).to_string(); report(ctx, "C05", "cone-coverage-panics", c.clone().s("at", &loc), p); return; } };
   let c09 = ctx.prop == "C09";
   let cells = match walk(&b, 100_000) { Ok(_) => cells_of(&b), Err(e) => { if c09 { ctx.violation("malformed-bmoc-from-cone_coverage", c.clone(), e); } else { report(ctx, "C06", "cone-coverage-result-not-well-formed", c.clone(), e); } return; } };
